@@ -1,44 +1,59 @@
 (* C30 model: the schema (column types) a query reports, over Sql/Query.v's `query`.
-   anchors: src/planner (Expr::data_type / plan schemas), src/physical/planner.rs: plan_schema_to_arrow,
-            src/execution/context.rs: QueryResult.schema = physical.schema().
-   Typing rules are the engine's as observed on the reported schema:
+   anchors: src/planner/logical_expr.rs (Expr::data_type, coerce_numeric_types, promote_sum_type),
+            src/physical/planner.rs: plan_schema_to_arrow, src/execution/context.rs: QueryResult.schema = physical.schema().
+   Typing rules, transcribed from the planner:
      comparison / AND / OR / NOT / IS NULL / IN / BETWEEN / LIKE -> bool
-     arithmetic: Float64 if either side is Float64, else Int64 (Int32 op Int32 is REPORTED as Int64; the
-                 kernel RETURNS Int32: parameter r32 below, class i32-arith)
-     unary minus: operand type;  CASE: type of the first THEN;  COALESCE: type of the first argument
-     COUNT -> Int64, SUM -> Int64 / Float64, AVG -> Float64, MIN / MAX -> input type
+     arithmetic = coerce_numeric_types: two operands of ONE numeric type keep it (arm added by the fix: commit
+                 4f06458; before it Int32 op Int32 was planned Int64 while the kernels returned Int32 — the
+                 parameter `same_arm` keeps the old typing expressible so the regression witness stays a theorem);
+                 otherwise Float64 if a float is involved, else Int64 if Int64/Int32 is involved, else Int32 (Int16
+                 with Int8)
+     unary minus: operand type;  COALESCE: type of the first argument
+     CASE (since fix: b37af60, the fold of evaluate_case): branch types are combined from the last branch; when THEN and
+                 the accumulated type differ the result is Float64 if either is Float64, otherwise THEN's type
+     COUNT -> Int64, SUM -> Int64 / Float64 (promote_sum_type), AVG -> Float64, MIN / MAX -> input type
      joins concatenate (outer joins keep types), set operations take the left side's types.
    Covered: every operator of `query` except VALUES; every expression of `expr` except a bare NULL literal
-   (Arrow type Null). CASE / COALESCE branches must be of one class (all integers or one type). *)
+   (Arrow type Null). COALESCE arguments must be of one class (all integers, all floats, or one type).
+   CASE branches: evaluate_case casts every branch to the folded type with arrow's cast kernel. The model types a CASE
+   when every branch type tx `flows` into the folded type t: tx and t of one class, or (mx = true) tx an integer and t a
+   float — the evaluator's Int -> Float64 cast, under which a VInt is accepted at a float type (has_ty true). The other
+   casts arrow performs (float -> integer when an integer THEN meets a Float32, number <-> string, bool <-> number,
+   date <-> integer) change the value's kind; such CASEs are outside the value model and are compared
+   reported-vs-returned only. mx = false is the strict value typing (one-class CASE only).
+   Scalar functions (CAST, date_trunc, ...) are not in `expr`: their typing is compared differentially only. *)
 From QV Require Export Sql.Query.
 
-Inductive ty := TI64 | TI32 | TF64 | TStr | TBool | TDate.
+Inductive ty := TI64 | TI32 | TI16 | TI8 | TF64 | TF32 | TStr | TBool | TDate.
 
 Definition ty_eqb (a b : ty) : bool :=
   match a, b with
-  | TI64, TI64 | TI32, TI32 | TF64, TF64 | TStr, TStr | TBool, TBool | TDate, TDate => true
+  | TI64, TI64 | TI32, TI32 | TI16, TI16 | TI8, TI8 | TF64, TF64 | TF32, TF32
+  | TStr, TStr | TBool, TBool | TDate, TDate => true
   | _, _ => false
   end.
-Definition is_int (t : ty) : bool := match t with TI64 | TI32 => true | _ => false end.
-Definition is_num (t : ty) : bool := match t with TI64 | TI32 | TF64 => true | _ => false end.
-Definition same_class (a b : ty) : bool := (is_int a && is_int b) || ty_eqb a b.
+Definition is_int (t : ty) : bool := match t with TI64 | TI32 | TI16 | TI8 => true | _ => false end.
+Definition is_flt (t : ty) : bool := match t with TF64 | TF32 => true | _ => false end.
+Definition is_num (t : ty) : bool := is_int t || is_flt t.
+Definition same_class (a b : ty) : bool := (is_int a && is_int b) || (is_flt a && is_flt b) || ty_eqb a b.
 Definition comparable (a b : ty) : bool := (is_num a && is_num b) || ty_eqb a b.
 
-(* run-time typing of a value; NULL inhabits every type, VErr none; Int32 and Int64 share VInt *)
-Definition has_ty (v : value) (t : ty) : bool :=
+(* run-time typing of a value; NULL inhabits every type, VErr none; the integer types share VInt, the floats VDbl *)
+Definition has_ty (mx : bool) (v : value) (t : ty) : bool :=
   match v, t with
   | VNull, _ => true
-  | VInt _, (TI64 | TI32) => true
-  | VDbl _, TF64 => true
+  | VInt _, (TI64 | TI32 | TI16 | TI8) => true
+  | VInt _, (TF64 | TF32) => mx          (* an integer the evaluator casts to the float column type *)
+  | VDbl _, (TF64 | TF32) => true
   | VStr _, TStr => true
   | VBool _, TBool => true
   | VDate _, TDate => true
   | _, _ => false
   end.
-Fixpoint row_has_types (r : row) (env : list ty) : bool :=
+Fixpoint row_has_types (mx : bool) (r : row) (env : list ty) : bool :=
   match r, env with
   | [], [] => true
-  | v :: r', t :: env' => has_ty v t && row_has_types r' env'
+  | v :: r', t :: env' => has_ty mx v t && row_has_types mx r' env'
   | _, _ => false
   end.
 
@@ -54,15 +69,31 @@ Fixpoint map_opt {A B} (f : A -> option B) (l : list A) : option (list B) :=
   | x :: r => match f x, map_opt f r with Some y, Some r' => Some (y :: r') | _, _ => None end
   end.
 
-Section Typing.
-  (* the type given to Int32 op Int32: TI64 = what the plan reports, TI32 = what the kernel returns *)
-  Variable r32 : ty.
+(* evaluate_case / Expr::Case data_type: fold of the branch types (THENs in order, then ELSE) from the last one *)
+Definition case_fold (tys : list ty) : option ty :=
+  fold_right (fun t acc => match acc with
+                           | None => Some t
+                           | Some a => if ty_eqb t a then Some a
+                                       else if ty_eqb t TF64 || ty_eqb a TF64 then Some TF64 else Some t
+                           end) None tys.
 
+Section Typing.
+  (* true = the planner after 4f06458 (first arm of coerce_numeric_types); false = before it *)
+  Variable same_arm : bool.
+  (* true = CASE may mix integer and float branches (values up to the evaluator's Int -> Float cast) *)
+  Variable mx : bool.
+  Definition flows (a b : ty) : bool := same_class a b || (mx && is_int a && is_flt b).
+
+  (* coerce_numeric_types, arm by arm (Decimal128 and the unsigned types are outside `ty`) *)
+  Definition coerce_numeric (a b : ty) : ty :=
+    if same_arm && ty_eqb a b then a
+    else if is_flt a || is_flt b then TF64
+    else if ty_eqb a TI64 || ty_eqb b TI64 then TI64
+    else if ty_eqb a TI32 || ty_eqb b TI32 then TI64
+    else if ty_eqb a TI16 || ty_eqb b TI16 then TI32
+    else TI16.
   Definition arith_ty (a b : ty) : option ty :=
-    if is_num a && is_num b then
-      Some (if ty_eqb a TF64 || ty_eqb b TF64 then TF64
-            else if ty_eqb a TI32 && ty_eqb b TI32 then r32 else TI64)
-    else None.
+    if is_num a && is_num b then Some (coerce_numeric a b) else None.
 
   Section Expr.
     Variable env : list ty.
@@ -95,23 +126,18 @@ Section Typing.
       | EArith _ a b => match tyof a, tyof b with Some ta, Some tb => arith_ty ta tb | _, _ => None end
       | ENeg a => match tyof a with Some t => if is_num t then Some t else None | None => None end
       | ECase whens els =>
-          match whens with
-          | [] => None
-          | (_, t0) :: _ =>
-              match tyof t0 with
+          let bts := map (fun cx => let '(_, x) := cx in tyof x) whens
+                     ++ match els with Some e' => [tyof e'] | None => [] end in
+          match map_opt (fun o => o) bts with
+          | Some tys =>
+              match case_fold tys with
               | Some t =>
-                  if forallb (fun cx => let '(c, x) := cx in
-                                match tyof c, tyof x with
-                                | Some TBool, Some tx => same_class t tx
-                                | _, _ => false
-                                end) whens
-                     && match els with
-                        | Some e' => match tyof e' with Some te => same_class t te | None => false end
-                        | None => true
-                        end
+                  if forallb (fun cx => let '(c, _) := cx in match tyof c with Some TBool => true | _ => false end) whens
+                     && forallb (fun tx => flows tx t) tys
                   then Some t else None
               | None => None
               end
+          | None => None
           end
       | ECoalesce l =>
           match l with
@@ -130,7 +156,7 @@ Section Typing.
   Definition agg_ty (f : aggfn) (t : ty) : option ty :=
     match f with
     | ACountStar | ACount | ACountDistinct => Some TI64
-    | ASum => if is_int t then Some TI64 else if ty_eqb t TF64 then Some TF64 else None
+    | ASum => if is_int t then Some TI64 else if is_flt t then Some TF64 else None
     | AAvg => if is_num t then Some TF64 else None
     | AMin | AMax => Some t
     end.
@@ -184,59 +210,36 @@ Section Typing.
   End Query.
 End Typing.
 
-(* what the engine REPORTS, and what its kernels RETURN *)
-Definition schema_of := schema_g TI64.
-Definition returned_schema_of := schema_g TI32.
+(* what the engine reports (and, since 4f06458, what its kernels return) *)
+Definition schema_of := schema_g true true.
+(* the same typing with the strict value discipline: CASE branches of one class only *)
+Definition schema_strict := schema_g true false.
+(* the planner's typing before 4f06458, kept for the regression witness *)
+Definition schema_before_4f06458 := schema_g false true.
 
-Definition db_conforms (db : list rel) (dbs : list (list ty)) : Prop :=
-  forall n env, nth_error dbs n = Some env -> forall r, In r (nth n db []) -> row_has_types r env = true.
+Definition db_conforms (mx : bool) (db : list rel) (dbs : list (list ty)) : Prop :=
+  forall n env, nth_error dbs n = Some env -> forall r, In r (nth n db []) -> row_has_types mx r env = true.
 Definition well_typed (dbs : list (list ty)) (db : list rel) (q : query) : Prop :=
-  db_conforms db dbs /\ exists env, schema_of dbs q = Some env.
+  db_conforms true db dbs /\ exists env, schema_of dbs q = Some env.
 
-(* recorded class i32-arith, decided by the statement's shape: somewhere in the statement an arithmetic
-   node has two Int32 operands (under the kernels' typing), so its Int32 result is reported as Int64.
-   Operators that re-encode their input (grouping, DISTINCT, semi-join set operations) may cast it back;
-   the class is the shape, not the outcome. *)
-Section I32Arith.
-  Variable env : list ty.
-  Fixpoint i32_arith_e (e : expr) : bool :=
-    match e with
-    | ECol _ | ELit _ => false
-    | EArith _ a b =>
-        (match tyof TI32 env a, tyof TI32 env b with Some TI32, Some TI32 => true | _, _ => false end)
-        || i32_arith_e a || i32_arith_e b
-    | ECmp _ a b | EAnd a b | EOr a b | ELike a b _ => i32_arith_e a || i32_arith_e b
-    | ENot a | EIsNull a | EIsNotNull a | ENeg a => i32_arith_e a
-    | EIn a l _ => i32_arith_e a || existsb i32_arith_e l
-    | EBetween a lo hi _ => i32_arith_e a || i32_arith_e lo || i32_arith_e hi
-    | ECase whens els =>
-        existsb (fun cx => let '(c, x) := cx in i32_arith_e c || i32_arith_e x) whens
-        || match els with Some e' => i32_arith_e e' | None => false end
-    | ECoalesce l => existsb i32_arith_e l
-    end.
-End I32Arith.
-
-Fixpoint known_i32_arith (dbs : list (list ty)) (q : query) : bool :=
-  let env_of q' := match returned_schema_of dbs q' with Some e => e | None => [] end in
+(* recorded class union-all-mixed-types, decided by the statement's shape: a UNION ALL whose two sides have
+   different column types. The plan reports the left side's types and UnionExec forwards each side's batches
+   unchanged, so the right side's batches carry other types than reported. *)
+Fixpoint known_union_mixed (dbs : list (list ty)) (q : query) : bool :=
   match q with
-  | QTable _ _ => false
-  | QValues _ rows => existsb (existsb (i32_arith_e [])) rows
-  | QFilter q' p => known_i32_arith dbs q' || i32_arith_e (env_of q') p
-  | QProject q' es => known_i32_arith dbs q' || existsb (i32_arith_e (env_of q')) es
-  | QJoin _ l r on => known_i32_arith dbs l || known_i32_arith dbs r || i32_arith_e (env_of l ++ env_of r) on
-  | QAgg q' keys aggs =>
-      known_i32_arith dbs q' || existsb (i32_arith_e (env_of q')) keys
-      || existsb (fun fa => i32_arith_e (env_of q') (snd fa)) aggs
-  | QDistinct q' | QLimit q' _ _ => known_i32_arith dbs q'
-  | QSetOp _ _ l r => known_i32_arith dbs l || known_i32_arith dbs r
-  | QSort q' keys => known_i32_arith dbs q' || existsb (fun k => i32_arith_e (env_of q') (k_expr k)) keys
+  | QTable _ _ | QValues _ _ => false
+  | QFilter q' _ | QProject q' _ | QAgg q' _ _ | QDistinct q' | QSort q' _ | QLimit q' _ _ => known_union_mixed dbs q'
+  | QJoin _ l r _ => known_union_mixed dbs l || known_union_mixed dbs r
+  | QSetOp op all l r =>
+      known_union_mixed dbs l || known_union_mixed dbs r
+      || match op, all, schema_of dbs l, schema_of dbs r with
+         | SUnion, true, Some el, Some er => negb (list_eqb ty_eqb el er)
+         | _, _, _, _ => false
+         end
   end.
 
-(* encoding of types for the check: 0 i64, 1 i32, 2 f64, 3 str, 4 bool, 5 date *)
+(* encoding of types for the check: 0 i64, 1 i32, 2 f64, 3 str, 4 bool, 5 date, 6 i16, 7 i8, 8 f32 *)
 Definition ty_code (t : ty) : Z :=
-  match t with TI64 => 0 | TI32 => 1 | TF64 => 2 | TStr => 3 | TBool => 4 | TDate => 5 end.
-Definition ty_of_code (z : Z) : ty :=
-  if z =? 0 then TI64 else if z =? 1 then TI32 else if z =? 2 then TF64 else if z =? 3 then TStr
-  else if z =? 4 then TBool else TDate.
+  match t with TI64 => 0 | TI32 => 1 | TF64 => 2 | TStr => 3 | TBool => 4 | TDate => 5 | TI16 => 6 | TI8 => 7 | TF32 => 8 end.
 Definition schema_codes (o : option (list ty)) : list Z :=
   match o with Some l => map ty_code l | None => [-1] end.
